@@ -20,6 +20,8 @@ package hackpadfs
 //@ lemma dirJoin(p string) := implies(VP(p) && p != ".", pdir(p) != p && pbase(p) != "" && pbase(p) != "." && !contains(pbase(p), "/") &&
 //@                            implies(pdir(p) == ".", p == pbase(p)) && implies(pdir(p) != ".", p == pdir(p) + "/" + pbase(p)))
 //@ lemma childDirAll(d string) := forall(k, string, implies(VP(k) && VP(d) && k != ".", iff(pdir(k) == d, hasPrefix(k, ite(d == ".", "", d + "/")) && !contains(trimPrefix(k, ite(d == ".", "", d + "/")), "/") && k != d)))
+//@ lemma dirValidAll() := forall(p, string, implies(VP(p), VP(pdir(p))))
+//@ lemma dirLenAll() := forall(p, string, implies(VP(p) && p != ".", pdir(p) != p && (pdir(p) == "." || len(pdir(p)) + 2 <= len(p))))
 //@ lemma dirRoot() := pdir(".") == "." && pbase(".") == "."
 //@ lemma vpDot(p string) := implies(VP(p) && hasPrefix(p, "."), p == "." || !hasPrefix(p, "./"))
 
